@@ -4,6 +4,7 @@ Built on `ConvertBits.lean` (bit regrouping) and `Polymod.lean` (checksum identi
 -/
 import BipVerif.Lemmas.ConvertBits
 import BipVerif.Lemmas.Polymod
+import BipVerif.Lemmas.Chunks
 
 namespace BipVerif.Model
 open BipVerif
@@ -368,5 +369,161 @@ theorem bech32_decode_encode_nil (hrp : List Char) (hv : ValidHrp hrp) :
   unfold bech32Decode
   rw [bechDecodeRaw_encodeRaw_nil .bech32 hrp hv]
   rfl
+
+/-! ### soundness: an accepted string, lower-cased, is the encoding of its parse -/
+
+/-- `bechDecodeRaw` in flat form. -/
+def bechDecodeRawFlat (U : CaseOracle) (k : BechKind) (s : List Char) : R (List Char × List Nat) :=
+  if (s.any U.isLower && s.any U.isUpper) = true then .error .value
+  else match rfind (s.flatMap U.lower) k.sep with
+    | none => .error .value
+    | some p =>
+      let hrp := (s.flatMap U.lower).take p
+      let dp := (s.flatMap U.lower).drop (p + 1)
+      if (hrp.length = 0 || hrp.any (fun x => x.toNat < 33 || x.toNat > 126)) = true then .error .value
+      else if (dp.length < k.ckLen + 1 || !(dp.all (fun x => bech32Charset.contains x))) = true then
+        .error .value
+      else if (!(k.verify hrp (dp.map (fun x => (bech32Charset.idxOf? x).getD 0)))) = true then
+        .error .checksum
+      else .ok (hrp, dropLast (dp.map (fun x => (bech32Charset.idxOf? x).getD 0)) k.ckLen)
+
+theorem bechDecodeRaw_eq_flat (U : CaseOracle) (k : BechKind) (s : List Char) :
+    bechDecodeRaw U k s = bechDecodeRawFlat U k s := by
+  unfold bechDecodeRaw bechDecodeRawFlat
+  simp only [Bool.or_false]
+  split
+  · rfl
+  · simp only [bind, Except.bind, pure, Except.pure]
+    cases rfind (s.flatMap U.lower) k.sep with
+    | none => rfl
+    | some p =>
+      simp only
+      split
+      · rfl
+      · split
+        · rfl
+        · split <;> rfl
+
+/-- `rfind` returns a position that holds the separator. -/
+theorem rfind_some {s : List Char} {sep : Char} {p : Nat} (h : rfind s sep = some p) :
+    s = s.take p ++ [sep] ++ s.drop (p + 1) := by
+  unfold rfind at h
+  cases hi : s.reverse.idxOf? sep with
+  | none => rw [hi] at h; cases h
+  | some i =>
+    rw [hi] at h
+    have hp : p = s.length - 1 - i := by cases h; rfl
+    rw [List.idxOf?, List.findIdx?_eq_some_iff_getElem] at hi
+    obtain ⟨hlt, heq, _⟩ := hi
+    rw [List.length_reverse] at hlt
+    have hget : s[s.length - 1 - i]'(by omega) = sep := by
+      rw [List.getElem_reverse] at heq
+      simpa using heq
+    have hplt : p < s.length := by omega
+    conv_lhs => rw [← List.take_append_drop p s, List.drop_eq_getElem_cons hplt]
+    subst hp
+    rw [hget]
+    simp
+
+/-- on charset symbols, symbol → index → symbol is the identity, and indices are below 32. -/
+theorem charset_idx_getD {c : Char} (h : c ∈ bech32Charset) :
+    bech32Charset.getD ((bech32Charset.idxOf? c).getD 0) '?' = c ∧
+      (bech32Charset.idxOf? c).getD 0 < 32 := by
+  obtain ⟨i, hi, hci⟩ := List.mem_iff_getElem.mp h
+  have hi32 : i < 32 := by rw [charset_length] at hi; exact hi
+  have hg : bech32Charset.getD i '?' = c := by
+    simp [List.getD_eq_getElem?_getD, hi, hci]
+  have := idxOf?_getD_charset i hi32
+  rw [hg] at this
+  rw [this]
+  exact ⟨hg, hi32⟩
+
+theorem map_getD_map_idxOf? (dp : List Char) (h : ∀ c ∈ dp, c ∈ bech32Charset) :
+    (dp.map (fun x => (bech32Charset.idxOf? x).getD 0)).map (fun x => bech32Charset.getD x '?') = dp := by
+  induction dp with
+  | nil => rfl
+  | cons a t ih =>
+    simp only [List.map_cons]
+    rw [(charset_idx_getD (h a (by simp))).1, ih (fun c hc => h c (by simp [hc]))]
+
+/-- **checksum uniqueness** for the three flavours: trailing symbols that make a non-empty data
+part verify are its checksum. -/
+theorem verify_unique (k : BechKind) (hrp : List Char) (data t : List Nat) (hne : data ≠ [])
+    (hl : t.length = k.ckLen) (ht : ∀ x ∈ t, x < 32) (h : k.verify hrp (data ++ t) = true) :
+    t = k.checksum hrp data := by
+  cases k
+  · exact bech32Verify_unique hrp data t false hl ht h
+  · have hh : (data ++ t).head? = data.head? := by
+      cases data with
+      | nil => exact absurd rfl hne
+      | cons a r => rfl
+    simp only [BechKind.verify, hh] at h
+    exact bech32Verify_unique hrp data t _ hl ht h
+  · exact bchVerify_unique hrp data t hl ht h
+
+/-- **Bech32 / SegWit / CashAddr soundness** (any case oracle): an accepted string, lower-cased, is
+exactly the encoding of the returned HRP and data — in particular its checksum symbols are the
+checksum of the returned parse and no other spelling is accepted. -/
+theorem bechDecodeRaw_sound (U : CaseOracle) (k : BechKind) {s hrp : List Char} {data : List Nat}
+    (h : bechDecodeRaw U k s = .ok (hrp, data)) : bechEncodeRaw k hrp data = s.flatMap U.lower := by
+  rw [bechDecodeRaw_eq_flat] at h
+  unfold bechDecodeRawFlat at h
+  split at h
+  · cases h
+  · cases hr : rfind (s.flatMap U.lower) k.sep with
+    | none => rw [hr] at h; cases h
+    | some p =>
+      rw [hr] at h
+      simp only at h
+      set s' := s.flatMap U.lower with hs'
+      set dp := s'.drop (p + 1) with hdp
+      set intData := dp.map (fun x => (bech32Charset.idxOf? x).getD 0) with hint
+      split at h
+      · cases h
+      · split at h
+        · cases h
+        · rename_i hc3
+          split at h
+          · cases h
+          · rename_i hc4
+            have hhrp : hrp = s'.take p := by cases h; rfl
+            have hdata : data = dropLast intData k.ckLen := by cases h; rfl
+            simp only [Bool.or_eq_true, decide_eq_true_eq, Bool.not_eq_true', not_or,
+              Bool.not_eq_false] at hc3
+            obtain ⟨hlen, hall⟩ := hc3
+            have hver : k.verify (s'.take p) intData = true := by simpa using hc4
+            have hmem : ∀ c ∈ dp, c ∈ bech32Charset := by
+              intro c hc
+              have := List.all_eq_true.mp hall c hc
+              simpa using this
+            have hilen : intData.length = dp.length := by rw [hint, List.length_map]
+            have hlt : ∀ x ∈ intData, x < 32 := by
+              intro x hx
+              rw [hint, List.mem_map] at hx
+              obtain ⟨c, hc, rfl⟩ := hx
+              exact (charset_idx_getD (hmem c hc)).2
+            have hsplit := dropLast_append_takeLast intData k.ckLen
+            have htl : (takeLast intData k.ckLen).length = k.ckLen := by
+              unfold takeLast; rw [List.length_drop]; omega
+            have hdne : dropLast intData k.ckLen ≠ [] := by
+              intro e
+              have := congrArg List.length e
+              unfold dropLast at this
+              rw [List.length_take] at this
+              simp at this
+              omega
+            rw [← hsplit] at hver
+            have huniq := verify_unique k (s'.take p) _ _ hdne htl
+              (fun x hx => hlt x (by unfold takeLast at hx; exact List.mem_of_mem_drop hx)) hver
+            unfold bechEncodeRaw
+            simp only
+            rw [hhrp, hdata, ← huniq, hsplit, hint, map_getD_map_idxOf? dp hmem, hdp]
+            exact (rfind_some hr).symm
+
+/-- the requested form for the library's (ASCII + KELVIN SIGN) case table. -/
+theorem bech_decode_sound (k : BechKind) {s hrp : List Char} {data : List Nat}
+    (h : bechDecodeRaw asciiCase k s = .ok (hrp, data)) :
+    bechEncodeRaw k hrp data = s.flatMap asciiCase.lower :=
+  bechDecodeRaw_sound asciiCase k h
 
 end BipVerif.Model
